@@ -536,5 +536,9 @@ fn main() {
             run_case(&case, &mut ctx, &mut drv, &mut rep);
         }
     }
+    if watchdog_retries() > 0 {
+        rep.branches.insert("watchdog-retries".to_string(), watchdog_retries());
+        rep.notes.push(format!("{} child process(es) exceeded the {:?} watchdog and were re-run with twice the limit", watchdog_retries(), WATCHDOG));
+    }
     rep.write(&args);
 }
